@@ -64,6 +64,10 @@ def gen(rng, k):
         p["cand"] = [(a * rng.uniform(0.97, 1.03)).tolist(), (b * rng.uniform(0.97, 1.03)).tolist()]
     if kind == "clean":
         p.update({"min_match": 3, "tolerance": 2.0, "min_delta": 0.0, "max_delta": float("inf"), "min_angle": float(np.pi / 10)})
+        if k % 2:
+            # length limits that just contain the lattice vectors (both limits are inclusive in the statement)
+            la, lb = float(np.linalg.norm(a)), float(np.linalg.norm(b))
+            p.update({"min_delta": 0.85 * min(la, lb), "max_delta": 1.15 * max(la, lb)})
     return p
 
 
